@@ -236,3 +236,20 @@ def infsup_guard_sigs(stms):
                     if nv & {n.name for n in walk(b) if n.ast_type == ASTType.Variable}:
                         out.add(sig_of_atom(b.atom))
     return out
+
+
+def multiplies_variable(stms):
+    """a product, quotient, remainder or absolute value with a variable operand occurs (X = Y*3, b(2*X), |X|)"""
+    from clingo.ast import BinaryOperator, UnaryOperator
+
+    for s in stms:
+        for n in walk(s):
+            if n.ast_type == ASTType.BinaryOperation and n.operator_type in (BinaryOperator.Multiplication, BinaryOperator.Division, BinaryOperator.Modulo):
+                if any(m.ast_type == ASTType.Variable for side in (n.left, n.right) for m in walk(side)):
+                    return True
+            if n.ast_type == ASTType.UnaryOperation and n.operator_type == UnaryOperator.Absolute:
+                return True
+    return False
+
+
+PROGRAM_PATTERNS = {"multiplies_variable": multiplies_variable}
